@@ -1,5 +1,5 @@
 """C04 all output formats carry the same text, escaped for the target (exhaustive cross: position x probe character x skeleton x format)."""
-import re, string
+import itertools, re, string
 import xml.parsers.expat as expat
 from vp import core, mmd, pmap
 
@@ -198,6 +198,46 @@ def make_case():
         return (pmap.h64(doc + bytes([fi])), v, dict(judged=1))
     return case, len(combos)
 
+# ---- nesting of the sectioning markup: heading trees x heading styles x header-level metadata x the LaTeX-family writers and the XML writers
+HMETA = [b"", b"Base Header Level: 2\n\n", b"Base Header Level: 3\n\n", b"LaTeX Header Level: 3\nHTML Header Level: 2\n\n", b"Title: T\nBase Header Level: 4\n\n"]
+def heading_src(level, style, k):
+    t = b"qh%02d title" % k
+    if style == 1 and level <= 2: return t + b"\n" + (b"=====" if level == 1 else b"-----") + b"\n\nqp%02d text\n\n" % k
+    if style == 2: return b"#" * level + b" " + t + b" " + b"#" * level + b"\n\nqp%02d text\n\n" % k
+    return b"#" * level + b" " + t + b"\n\nqp%02d text\n\n" % k
+def nesting_cases(maxn):
+    out = []
+    for n in range(1, maxn + 1):
+        for lv in itertools.product((1, 2, 3), repeat=n):
+            for st in itertools.product((0, 1, 2), repeat=n):
+                if any(s == 1 and l > 2 for s, l in zip(st, lv)): continue
+                for m in range(len(HMETA)):
+                    for fi in (1, 2, 3, 4, 0): out.append((lv, st, m, fi))
+    return out
+def nesting_case(cl):
+    def case(idx):
+        lv, st, m, fi = cl[idx]; fname, fmt = FORMATS[fi]
+        doc = HMETA[m] + b"".join(heading_src(l, s, k) for k, (l, s) in enumerate(zip(lv, st)))
+        mode = E["SNIPPET"] if fmt in (2, 3, 4) else E["COMPLETE"]          # a complete LaTeX document opens its document environment in an \\input file
+        out = mmd.convert(doc, EXT | mode, fmt) if fmt != 5 else mmd.convert_to_data(doc, EXT | mode, fmt, 0, None)
+        case_d = dict(src=doc.decode("latin-1"), format=fname, position="sectioning"); v = []
+        if fname in ("html", "fodt"):
+            try: parse_xml(out)
+            except expat.ExpatError as e: v.append(("text:not-well-formed:%s:sectioning" % fname, "%s does not parse (%s)" % (fname, e), case_d))
+        else:
+            err = latex_structure(out)
+            if err: v.append(("text:nesting:%s:sectioning" % fname, "LaTeX structure: %s" % err, case_d))
+            if fname == "beamer":
+                seq = re.findall(rb"\\(begin|end)\{frame\}", out)
+                if any(a == b for a, b in zip(seq, seq[1:])) or (seq and (seq[0] != b"begin" or seq[-1] != b"end")):
+                    v.append(("text:nesting:beamer:frames", "frames do not alternate begin/end: %r" % seq[:12], case_d))
+        words = [w for w in re.findall(rb"q[hp]\d\d", out)]
+        want = [w for w in re.findall(rb"q[hp]\d\d", doc)]
+        if [w for i, w in enumerate(words) if w in want and (i == 0 or words[i - 1] != w)][:len(want)] != want and sorted(set(words) & set(want)) != sorted(set(want)):
+            v.append(("text:word-lost:%s:sectioning" % fname, "heading or paragraph words are missing: output has %r" % sorted(set(words)), case_d))
+        return (pmap.h64(doc + bytes([fi])), v, dict(judged=1))
+    return case
+
 def run(tier):
     rep = core.Report("C04", tier, "exploration")
     rep.rule = ("exhaustive cross: %d text positions x %d probe characters (printable ASCII + two multi-byte) x {tight, spaced} x %d skeleton documents x 6 formats; the probe sits between unique marker words; oracles: XML outputs parse (expat) and the character "
@@ -208,6 +248,9 @@ def run(tier):
     case, n = make_case()
     res = pmap.pmap(n, case, init_fn=mmd.init_worker, deadline_s=core.deadline_s(tier) * 0.9)
     pmap.fold(rep, "cross", n, res, "positions x characters x spacing x skeletons x formats")
+    cl = nesting_cases(3 if tier == "quick" else 4)
+    res = pmap.pmap(len(cl), nesting_case(cl), init_fn=mmd.init_worker, deadline_s=core.deadline_s(tier) * 0.9)
+    pmap.fold(rep, "sectioning", len(cl), res, "heading level sequences up to length %d x {ATX, Setext, closed ATX} x 5 header-level metadata blocks x {latex, beamer, memoir, fodt, html}: environments, frames and elements nest, no heading or paragraph lost" % (3 if tier == "quick" else 4))
     d, _ = make_doc(7, b"&", 0, 2); rep.add_sample(dict(src=d.decode("latin-1"), position="link-title", char="&"))
     d, _ = make_doc(13, b"<", 1, 1); rep.add_sample(dict(src=d.decode("latin-1"), position="code-block", char="<"))
     return rep.finish()
